@@ -11,7 +11,7 @@ from hypothesis import strategies as st
 ID = "C09"
 LEVEL = "exploration"
 RULE = (
-    "Hypothesis draws a BAM plan (1..3 contigs of 200..20 000 bases; 0..5000 reads placed by numpy default_rng(seed) with starts "
+    "Hypothesis draws a BAM plan (1..3 contigs of 200..20 000 bases, one case in six a 3e8-base contig with 1e8-base bins and 1..8 reads; 0..5000 reads placed by numpy default_rng(seed) with starts "
     "biased to straddle bin edges and contig ends; read length 30..150 with optional soft clips; flags drawn from {reverse, "
     "paired, duplicate, secondary, supplementary, QC-fail, unmapped-but-placed}; MAPQ 0..60; a few same-name pairs; optionally "
     "I/D/N operations) and a BED file (3, 4 or 6 columns; abutting, overlapping, nested, zero-width and beyond-contig-end bins; "
@@ -67,12 +67,20 @@ def strategy(draw):
             pos = max(pos, e)
     if not bins:
         bins.append([contigs[0][0], 10, 110, "G"])
+    # a chromosome-sized contig with one or two bins of 10^8 bases and a handful of reads: depths far below one read per
+    # million bases (seeded change C09h clipped log2 at -20 instead of reporting log2(depth) there)
+    sparse = draw(st.integers(0, 5)) == 0
+    if sparse:
+        contigs[0][1] = 300000000
+        for _ in range(draw(st.integers(1, 2))):
+            s = draw(st.sampled_from([0, 5000, 160000000]))
+            bins.append([contigs[0][0], s, s + draw(st.sampled_from([100000000, 139000050, 299990000 - s])), "WIDE"])
     order = list(range(len(bins)))
     if draw(st.integers(0, 3)) == 0:
         order = draw(st.permutations(order))
     return {
         "contigs": contigs, "bins": [bins[i] for i in order], "bed_cols": draw(st.sampled_from([3, 4, 4, 6, 7])),
-        "nreads": draw(st.one_of(st.integers(0, 30), st.integers(0, 600), st.integers(0, 5000))),
+        "nreads": draw(st.integers(1, 8)) if sparse else draw(st.one_of(st.integers(0, 30), st.integers(0, 600), st.integers(0, 5000))),
         "seed": draw(st.integers(0, 2 ** 31)),
         "readlen": sorted([draw(st.integers(30, 150)), draw(st.integers(30, 150))]),
         "p_flag": draw(st.sampled_from([0.0, 0.05, 0.2])), "p_clip": draw(st.sampled_from([0.0, 0.3])),
@@ -264,6 +272,8 @@ def classify(case):
         labs.append("unsorted-bed")
     if case["big_bed"]:
         labs.append("bed>5000-lines")
+    if any(b[2] - b[1] >= 100000000 for b in case["bins"]):
+        labs.append("bin>=1e8-bases")
     if case["procs"] > 1 and case["chunk"] < len(case["bins"]):
         labs.append("multi-chunk")
     return labs
